@@ -20,7 +20,7 @@ RULE = ('cases = corpus files (jedi sources, test/completion, test/refactor, tes
 ASSUMPTIONS = ['typeshed stubs vendored from the jedi 0.20.0 wheel',
                'one live Script per path; private parso cache per worker']
 
-SIZES = {'quick': (240, 5), 'thorough': (12000, 8)}
+SIZES = {'quick': (240, 5), 'thorough': (4000, 8)}
 TIMEOUT = {'quick': 1500, 'thorough': 4 * 3600}
 
 
